@@ -1076,3 +1076,300 @@ Proof.
     as (l2 & sel2 & E2 & Hin).
   rewrite E in E2. injection E2 as _ <-. exact Hin.
 Qed.
+
+(* ---------------------------------------------------------------- score calculators (generated) *)
+Lemma prefer_incoming_closed inb outb pend :
+  0 <= inb -> 0 <= outb -> inb + outb < 2 ^ 63 -> 0 <= pend < 2 ^ 31 ->
+  preferIncomingScore inb outb pend =
+    if inb + outb =? 0 then 2 ^ 64 - 1 else if inb =? 0 then 2 ^ 31 - 1 + pend else pend.
+Proof.
+  intros Hi Ho Hs Hp. unfold preferIncomingScore.
+  rewrite wrapS_id by lia. destruct (inb + outb =? 0); [reflexivity|].
+  rewrite (wrapU_id 64 pend) by lia. destruct (inb =? 0); [|reflexivity].
+  rewrite wrapU_id by lia. reflexivity.
+Qed.
+
+Lemma least_pending_closed inb outb pend :
+  0 <= inb -> 0 <= outb -> inb + outb < 2 ^ 63 -> 0 <= pend < 2 ^ 63 ->
+  leastPendingScore inb outb pend = if inb + outb =? 0 then 2 ^ 64 - 1 else pend.
+Proof.
+  intros Hi Ho Hs Hp. unfold leastPendingScore.
+  rewrite wrapS_id by lia. destruct (inb + outb =? 0); [reflexivity|].
+  rewrite wrapU_id by lia. reflexivity.
+Qed.
+
+Lemma prefer_incoming_rank i1 o1 p1 i2 o2 p2 :
+  0 <= i1 -> 0 <= o1 -> i1 + o1 < 2 ^ 63 -> 0 <= p1 < 2 ^ 31 - 1 ->
+  0 <= i2 -> 0 <= o2 -> i2 + o2 < 2 ^ 63 -> 0 <= p2 < 2 ^ 31 - 1 ->
+  (preferIncomingScore i1 o1 p1 < preferIncomingScore i2 o2 p2 <->
+   rank_lt (default_rank i1 o1 p1) (default_rank i2 o2 p2)).
+Proof.
+  intros. rewrite !prefer_incoming_closed by (try assumption; lia). unfold rank_lt, default_rank.
+  destruct (Z.eqb_spec (i1 + o1) 0), (Z.eqb_spec (i2 + o2) 0), (Z.eqb_spec i1 0), (Z.eqb_spec i2 0);
+    cbn [fst snd]; lia.
+Qed.
+
+(* ---------------------------------------------------------------- the channel: every list of every history *)
+Definition chan_wf (c : chan) : Prop := Forall (fun cl => wf (cl_pl cl)) (ch_lists c).
+
+Lemma set_list_Forall (P : clist -> Prop) ls j c : Forall P ls -> P c -> Forall P (set_list ls j c).
+Proof.
+  intros H Hc. revert j; induction H as [|x r Hx Hr IH]; intros [|j]; cbn; constructor; auto.
+Qed.
+
+Lemma nth_error_Forall (P : clist -> Prop) ls j cl : Forall P ls -> nth_error ls j = Some cl -> P cl.
+Proof. intros H E. rewrite Forall_forall in H. apply H. eapply nth_error_In; eassumption. Qed.
+
+Lemma update_lists_wf w hp : forall ls, Forall (fun cl => wf (cl_pl cl)) ls ->
+  exists ls', update_lists ls w hp = Some ls' /\ Forall (fun cl => wf (cl_pl cl)) ls'.
+Proof.
+  induction ls as [|c r IH]; intros H; cbn [update_lists]; [eauto|].
+  inversion H as [|? ? Hc Hr]; subst.
+  destruct (pl_update_spec (cl_pl c) hp (calc (cl_strat c) (w_get w hp)) Hc) as (l' & E & W & _).
+  destruct (IH Hr) as (r' & E' & W'). rewrite E, E'. eexists. split; [reflexivity|]. constructor; assumption.
+Qed.
+
+Lemma chan_step_wf c op : chan_wf c -> exists c' r, chan_step c op = Some (c', r) /\ chan_wf c'.
+Proof.
+  intros Hwf. unfold chan_wf in *.
+  destruct op as [j hp d1 d2|j hp|j prev d|j prev d|hp a b p cu|j strat order]; cbn [chan_step].
+  - destruct (nth_error (ch_lists c) j) as [cl|] eqn:En; [|eauto].
+    pose proof (nth_error_Forall _ _ _ _ Hwf En) as Hcl. cbn beta in Hcl.
+    destruct (pl_add_spec (cl_pl cl) hp (calc (cl_strat cl) (w_get (ch_world c) hp)) d1 d2 Hcl) as (l' & n & E & W & _).
+    rewrite E. eexists; eexists. split; [reflexivity|]. cbn [ch_lists]. now apply set_list_Forall.
+  - destruct (nth_error (ch_lists c) j) as [cl|] eqn:En; [|eauto].
+    pose proof (nth_error_Forall _ _ _ _ Hwf En) as Hcl. cbn beta in Hcl.
+    destruct (pl_remove_spec (cl_pl cl) hp Hcl) as (l' & ok & E & W & _).
+    rewrite E. eexists; eexists. split; [reflexivity|]. cbn [ch_lists]. now apply set_list_Forall.
+  - destruct (nth_error (ch_lists c) j) as [cl|] eqn:En; [|eauto].
+    pose proof (nth_error_Forall _ _ _ _ Hwf En) as Hcl. cbn beta in Hcl.
+    destruct (pl_get_spec (cl_pl cl) prev d Hcl) as (l' & r & n & E & W & _).
+    rewrite E. eexists; eexists. split; [reflexivity|]. cbn [ch_lists]. now apply set_list_Forall.
+  - destruct (nth_error (ch_lists c) j) as [cl|] eqn:En; [|eauto].
+    pose proof (nth_error_Forall _ _ _ _ Hwf En) as Hcl. cbn beta in Hcl.
+    destruct (pl_getnew_spec (cl_pl cl) prev d Hcl) as (l' & r & n & E & W & _).
+    rewrite E. eexists; eexists. split; [reflexivity|]. cbn [ch_lists]. now apply set_list_Forall.
+  - destruct (update_lists_wf (w_set (ch_world c) hp (mkAttrs a b p cu (a_chosen (w_get (ch_world c) hp)))) hp _ Hwf)
+      as (ls' & E & W). rewrite E. eexists; eexists. split; [reflexivity|]. exact W.
+  - destruct (nth_error (ch_lists c) j) as [cl|] eqn:En; [|eauto].
+    pose proof (nth_error_Forall _ _ _ _ Hwf En) as Hcl. cbn beta in Hcl.
+    destruct (pl_set_strategy_spec (cl_pl cl) (fun hp => calc strat (w_get (ch_world c) hp)) order Hcl) as (l' & E & W & _).
+    rewrite E. eexists; eexists. split; [reflexivity|]. cbn [ch_lists]. now apply set_list_Forall.
+Qed.
+
+Lemma chan_run_wf ops : forall c, chan_wf c -> exists c', chan_run c ops = Some c' /\ chan_wf c'.
+Proof.
+  induction ops as [|op r IH]; intros c Hwf; cbn [chan_run]; [eauto|].
+  destruct (chan_step_wf c op Hwf) as (c1 & res & E & W). rewrite E. now apply IH.
+Qed.
+
+Lemma chan_init_wf n : chan_wf (chan_init n).
+Proof.
+  unfold chan_wf, chan_init. cbn [ch_lists]. constructor; [apply wf_empty|].
+  apply Forall_forall. intros x Hx. apply repeat_spec in Hx. subst x. apply wf_empty.
+Qed.
+
+(* ---------------------------------------------------------------- what the pinned code does NOT guarantee *)
+(* heap order on the full key (score, order) *)
+Definition lex_valid (h : list pscore) : Prop := valid (fun a b => kless b a = false) h (length h).
+
+Definition adds (n : nat) : list lop := map (fun i => LAdd [Z.of_nat i] 0 0 0) (seq 1 n).
+
+(* four Adds, the 4th swapping its stamp with the root's: addPeer's swapOrder fixes position 0
+   after the first Fix has moved the root element away *)
+Definition lex_witness : list lop :=
+  [LAdd [1] 0 0 0; LAdd [2] 0 0 1; LAdd [3] 0 0 2; LAdd [9] 0 0 0].
+
+Lemma lex_order_refuted : exists l, lrun pl_empty lex_witness = Some l /\ ~ lex_valid (pl_arr l).
+Proof.
+  eexists. split; [vm_compute; reflexivity|].
+  intros H. specialize (H 3%nat ltac:(cbn; lia)). vm_compute in H. discriminate.
+Qed.
+
+(* fairness after the list shrank: 16 peers, one selection with the largest jitter, 14 removed;
+   the survivor [16] is not chosen in the next 3n = 6 selections *)
+Definition shrink_witness : list lop :=
+  adds 16 ++ [LGet [] 7] ++
+  map (fun i => LRemove [Z.of_nat i]) (seq 2 14).
+
+Lemma fair_refuted : exists l ds p,
+  lrun pl_empty shrink_witness = Some l /\ wf l /\
+  (forall x, In x (pl_arr l) -> ps_score x = 0) /\
+  length ds = (3 * length (pl_arr l))%nat /\ In p (pl_keys l) /\
+  exists l' sel, get_nils l ds = Some (l', sel) /\ ~ In p sel.
+Proof.
+  destruct (lrun_wf shrink_witness pl_empty wf_empty) as (l & E & W).
+  exists l, [0; 0; 0; 0; 0; 0], [16].
+  assert (E' := E). vm_compute in E'. injection E' as <-.
+  split; [exact E|]. split; [exact W|].
+  split; [intros x [<-|[<-|[]]]; reflexivity|].
+  split; [reflexivity|]. split; [cbn; tauto|].
+  eexists; eexists. split; [vm_compute; reflexivity|].
+  apply mem_false. vm_compute. reflexivity.
+Qed.
+
+(* ---------------------------------------------------------------- statements in the form used by Props/C15.v *)
+Definition wf_explicit (l : plist) : Prop :=
+  NoDup (pl_keys l) /\ Permutation (pl_keys l) (map ps_hp (pl_arr l)) /\
+  (forall i, (i < length (pl_arr l))%nat -> ps_index (nth i (pl_arr l) ps_dflt) = Z.of_nat i) /\
+  (forall i, (0 < i < length (pl_arr l))%nat ->
+     ps_score (nth ((i - 1) / 2) (pl_arr l) ps_dflt) <= ps_score (nth i (pl_arr l) ps_dflt)).
+
+Lemma wf_explicit_iff l : wf l <-> wf_explicit l.
+Proof. unfold wf, wf_explicit, hinv, idx_ok, svalid, valid, edge, ek_score, key, par, hget, hps. cbn [fst]. tauto. Qed.
+
+Lemma chan_heap_inv n ops : exists c, chan_run (chan_init n) ops = Some c /\
+  forall cl, In cl (ch_lists c) -> wf_explicit (cl_pl cl).
+Proof.
+  destruct (chan_run_wf ops (chan_init n) (chan_init_wf n)) as (c & E & W). exists c. split; [exact E|].
+  intros cl Hcl. apply wf_explicit_iff. unfold chan_wf in W. rewrite Forall_forall in W. now apply W.
+Qed.
+
+Lemma list_heap_inv ops : exists l, lrun pl_empty ops = Some l /\ wf_explicit l.
+Proof. destruct (lrun_wf ops pl_empty wf_empty) as (l & E & W). exists l. split; [exact E|now apply wf_explicit_iff]. Qed.
+
+Lemma lrun_reach_wf ops l : lrun pl_empty ops = Some l -> wf l.
+Proof. intros E. destruct (lrun_wf ops pl_empty wf_empty) as (l' & E' & W). congruence. Qed.
+
+Lemma lex_order_refuted_explicit : exists ops l, lrun pl_empty ops = Some l /\
+  ~ (forall i, (0 < i < length (pl_arr l))%nat ->
+       pless (nth i (pl_arr l) ps_dflt) (nth ((i - 1) / 2) (pl_arr l) ps_dflt) = false).
+Proof.
+  destruct lex_order_refuted as (l & E & H). exists lex_witness, l. split; [exact E|].
+  intros Hv. apply H. intros k Hk. specialize (Hv k Hk). exact Hv.
+Qed.
+
+Lemma get_nopeers_iff l prev d : wf l ->
+  ((exists l' n, pl_get l prev d = Some (l', SelNoPeers, n)) <-> pl_keys l = []) /\
+  pl_get l prev d <> None /\
+  (forall l' n, pl_get l prev d <> Some (l', SelNoNewPeers, n)).
+Proof.
+  intros Hwf. destruct (pl_get_spec l prev d Hwf) as (l' & r & n & E & W' & K' & M).
+  split; [|split; [congruence|]].
+  - split.
+    + intros (l2 & n2 & E2). rewrite E in E2. injection E2 as _ -> _. apply M.
+    + intros Hk. destruct r as [p| |]; [|eauto|destruct M].
+      exfalso. destruct M as [_ M].
+      assert (Hin : In p (pl_keys l)).
+      { destruct M as [H|[[_ H]|[_ H]]]; eapply keys_of_chosen; eassumption. }
+      rewrite Hk in Hin. destruct Hin.
+  - intros l2 n2 E2. rewrite E in E2. injection E2 as _ -> _. exact M.
+Qed.
+
+(* the order counter never goes negative *)
+Lemma lstep_ctr l op l' : wf l -> 0 <= pl_ctr l -> lstep l op = Some l' -> 0 <= pl_ctr l'.
+Proof.
+  intros Hwf Hc E.
+  assert (Hw : forall x, 0 <= wrapU 64 x) by (intros x; apply wrapU_range; lia).
+  destruct op as [hp s d1 d2|hp|prev d|prev d|hp s|f order]; cbn [lstep] in E.
+  - destruct (pl_add_spec l hp s d1 d2 Hwf) as (l1 & n & E1 & _ & Hold & Hnew). rewrite E1 in E. injection E as <-.
+    destruct (in_dec (list_eq_dec Z.eq_dec) hp (pl_keys l)) as [Hin|Hnin].
+    + now destruct (Hold Hin) as [-> _].
+    + destruct (Hnew Hnin) as (_ & _ & -> & _). apply Hw.
+  - destruct (pl_remove_spec l hp Hwf) as (l1 & ok & E1 & _ & Hf & Ht). rewrite E1 in E. injection E as <-.
+    destruct ok; [destruct (Ht eq_refl) as (_ & _ & -> & _); exact Hc|now destruct (Hf eq_refl) as [-> _]].
+  - destruct (pl_get_spec l prev d Hwf) as (l1 & r & n & E1 & _ & _ & M). rewrite E1 in E. injection E as <-.
+    destruct r as [p| |]; [|now destruct M as (_ & -> & _)|destruct M].
+    destruct M as [_ [H|[[_ H]|[_ H]]]]; destruct H as (_ & -> & _); apply Hw.
+  - destruct (pl_getnew_spec l prev d Hwf) as (l1 & r & n & E1 & _ & _ & M). rewrite E1 in E. injection E as <-.
+    destruct r as [p| |]; [|now destruct M as (_ & -> & _)|].
+    + destruct M as [_ [H|[_ H]]]; destruct H as (_ & -> & _); apply Hw.
+    + destruct M as (_ & (_ & _ & -> & _) & _). exact Hc.
+  - destruct (pl_update_spec l hp s Hwf) as (l1 & E1 & _ & _ & C & _). rewrite E1 in E. injection E as <-. lia.
+  - destruct (pl_set_strategy_spec l f order Hwf) as (l1 & E1 & _ & _ & C & _). rewrite E1 in E. injection E as <-. lia.
+Qed.
+
+Lemma lrun_ctr ops : forall l l', wf l -> 0 <= pl_ctr l -> lrun l ops = Some l' -> 0 <= pl_ctr l'.
+Proof.
+  induction ops as [|op r IH]; intros l l' Hwf Hc E; cbn [lrun] in E; [injection E as <-; exact Hc|].
+  destruct (lstep l op) as [l1|] eqn:E1; [|discriminate].
+  destruct (lstep_wf l op Hwf) as (l1' & E1' & W1). rewrite E1 in E1'. injection E1' as <-.
+  eapply IH; [exact W1| |exact E]. exact (lstep_ctr l op l1 Hwf Hc E1).
+Qed.
+
+Lemma fair_reachable ops l s ds : lrun pl_empty ops = Some l ->
+  (forall x, In x (pl_arr l) -> ps_score x = s) ->
+  (forall o, In o (map ps_order (pl_arr l)) -> o <= pl_ctr l + Z.of_nat (length (pl_arr l)) / 2 + 1) ->
+  let n := length (pl_arr l) in
+  (0 < n)%nat -> length ds = (3 * n)%nat ->
+  pl_ctr l + 3 * Z.of_nat n + Z.of_nat n / 2 + 2 < 2 ^ 64 ->
+  exists l' sel, get_nils l ds = Some (l', sel) /\ length sel = (3 * n)%nat /\ pl_keys l' = pl_keys l /\
+    forall p, In p (pl_keys l) -> In p (firstn (n + n / 2 + 1) sel).
+Proof.
+  intros E Hsc Hst n Hn Hds Hb.
+  apply fair_window with (s := s); try assumption.
+  - eapply lrun_reach_wf; eassumption.
+  - eapply (lrun_ctr ops pl_empty l wf_empty); [cbn; lia|exact E].
+Qed.
+
+Lemma stamp_reachable ops l : forallb (fun op => negb (is_remove op)) ops = true ->
+  2 * Z.of_nat (length ops) + 4 < 2 ^ 64 -> lrun pl_empty ops = Some l ->
+  forall o, In o (map ps_order (pl_arr l)) -> o <= pl_ctr l + Z.of_nat (length (pl_arr l)) / 2 + 1.
+Proof.
+  intros Hnr Hk E.
+  assert (H0 : sinv 0 pl_empty).
+  { split; [apply wf_empty|]. cbn. split; [lia|]. split; [lia|]. intros o []. }
+  destruct (lrun_stamp ops 0 pl_empty Hnr ltac:(lia) H0) as (l' & E' & _ & _ & _ & Hs).
+  rewrite E in E'. injection E' as <-. exact Hs.
+Qed.
+
+Lemma min_eligible_reachable ops l prev d : lrun pl_empty ops = Some l ->
+  match pl_get l prev d with
+  | Some (l', SelOk p, _) =>
+      least_loaded (eligible_get prev (pl_keys l)) (map (fun x => (ps_hp x, ps_score x)) (pl_arr l)) p /\
+      pl_keys l' = pl_keys l /\
+      Permutation (map (fun x => (ps_hp x, ps_score x)) (pl_arr l'))
+                  (map (fun x => (ps_hp x, ps_score x)) (pl_arr l))
+  | Some (l', SelNoPeers, _) => pl_keys l = [] /\ l' = l
+  | _ => False
+  end.
+Proof.
+  intros E. pose proof (get_min_eligible l prev d (lrun_reach_wf ops l E)) as H.
+  destruct (pl_get l prev d) as [[[l' [p| |]] n]|]; tauto.
+Qed.
+
+Lemma getnew_reachable ops l prev d : lrun pl_empty ops = Some l ->
+  match pl_getnew l prev d with
+  | Some (l', SelOk p, _) =>
+      least_loaded (eligible_getnew prev (pl_keys l)) (map (fun x => (ps_hp x, ps_score x)) (pl_arr l)) p /\
+      pl_keys l' = pl_keys l /\
+      Permutation (map (fun x => (ps_hp x, ps_score x)) (pl_arr l'))
+                  (map (fun x => (ps_hp x, ps_score x)) (pl_arr l))
+  | Some (l', SelNoPeers, _) => pl_keys l = [] /\ l' = l
+  | Some (l', SelNoNewPeers, _) =>
+      pl_keys l <> [] /\ (forall q, In q (pl_keys l) -> tier2 prev q = false) /\
+      pl_keys l' = pl_keys l /\
+      Permutation (map (fun x => (ps_hp x, ps_score x)) (pl_arr l'))
+                  (map (fun x => (ps_hp x, ps_score x)) (pl_arr l))
+  | None => False
+  end.
+Proof.
+  intros E. pose proof (getnew_min_eligible l prev d (lrun_reach_wf ops l E)) as H.
+  destruct (pl_getnew l prev d) as [[[l' [p| |]] n]|]; tauto.
+Qed.
+
+Lemma nopeers_reachable ops l prev d : lrun pl_empty ops = Some l ->
+  ((exists l' n, pl_get l prev d = Some (l', SelNoPeers, n)) <-> pl_keys l = []) /\
+  pl_get l prev d <> None /\
+  (forall l' n, pl_get l prev d <> Some (l', SelNoNewPeers, n)).
+Proof. intros E. exact (get_nopeers_iff l prev d (lrun_reach_wf ops l E)). Qed.
+
+Lemma tier_scores inb outb pend :
+  0 <= inb -> 0 <= outb -> inb + outb < 2 ^ 63 -> 0 <= pend < 2 ^ 31 ->
+  preferIncomingScore inb outb pend =
+    (if inb + outb =? 0 then 2 ^ 64 - 1 else if inb =? 0 then 2 ^ 31 - 1 + pend else pend) /\
+  leastPendingScore inb outb pend = (if inb + outb =? 0 then 2 ^ 64 - 1 else pend).
+Proof.
+  intros Hi Ho Hs Hp. split;
+    [exact (prefer_incoming_closed inb outb pend Hi Ho Hs Hp)
+    |exact (least_pending_closed inb outb pend Hi Ho Hs ltac:(lia))].
+Qed.
+
+Lemma fair_refuted_explicit : exists ops l ds p,
+  lrun pl_empty ops = Some l /\
+  (forall x, In x (pl_arr l) -> ps_score x = 0) /\
+  length ds = (3 * length (pl_arr l))%nat /\ In p (pl_keys l) /\
+  exists l' sel, get_nils l ds = Some (l', sel) /\ ~ In p sel.
+Proof.
+  destruct fair_refuted as (l & ds & p & E & _ & H). exists shrink_witness, l, ds, p. exact (conj E H).
+Qed.
